@@ -2002,8 +2002,11 @@ class UserActions(object):
     # We don't set the values of formula columns, they should just recalculate themselves
     if not col.is_formula():
       row_ids, values = col.rename_choices(renames)
-      values = [encode_object(v) for v in values]
-      self.BulkUpdateRecord(table_id, row_ids, {col_id: values})
+      # The column also has slots for row 0 and for removed rows; they hold the default value,
+      # which for Choice is '', a valid choice to rename. Only update rows that exist.
+      renamed = [(r, encode_object(v)) for r, v in zip(row_ids, values) if r in table.row_ids]
+      if renamed:
+        self.BulkUpdateRecord(table_id, [r for r, _ in renamed], {col_id: [v for _, v in renamed]})
 
     # Helper to rename only string values
     def rename(value):
